@@ -2380,10 +2380,25 @@ class Frame:
         fi = sub.override.get(fi.qualname, fi)
         saved = Event.prefix
         Event.prefix = tuple(saved) + tuple(st.guards)
+        # an array attribute handed to a helper (`self._accumulate(self.log_p, xs)`): an in-place `param += v` inside the
+        # helper updates the array the attribute holds, exactly as `a = self.log_p; a += v` does in one function
+        planted = []
+        if isinstance(node, ast.Call):
+            params_ = [a.arg for a in fi.node.args.posonlyargs + fi.node.args.args]
+            off_ = len(args) - len(node.args)
+            for j, a_ in enumerate(node.args):
+                if isinstance(a_, ast.Attribute) and 0 <= off_ + j < len(params_) and off_ + j < len(args):
+                    v_ = args[off_ + j]
+                    at_ = v_.as_atom() if isinstance(v_, Poly) else None
+                    if at_ is not None and at_[0] == "attr" and at_[2] == a_.attr and ("@alias", params_[off_ + j]) not in st.env:
+                        st.env[("@alias", params_[off_ + j])] = v_
+                        planted.append(("@alias", params_[off_ + j]))
         try:
             res, final = _run_inlined(sub, fi, args, kwargs, self_cls, st)
         finally:
             Event.prefix = saved
+            for k_ in planted:
+                st.env.pop(k_, None)
         # objects are passed by reference: a helper that edits an argument in place (`t.add_x(...)` as a statement)
         # has edited the caller's object.  Where the argument is a plain local of the caller and the helper never
         # rebinds the parameter, the caller's local now denotes the edited object.
